@@ -150,6 +150,8 @@ func funcStrContains(v []data.Value) data.Value {
 	return data.Bool(strings.Contains(string(v[0].(data.String)), string(v[1].(data.String))))
 }
 
+const maxInt = int(^uint(0) >> 1)
+
 func funcRange(v []data.Value) data.Value {
 	var (
 		increment = 1
@@ -178,6 +180,9 @@ func funcRange(v []data.Value) data.Value {
 		verifWork()
 		indices = append(indices, data.Int(index))
 		i++
+		if index > 0 && increment > maxInt-index {
+			break // (the next index would wrap around to a negative number)
+		}
 	}
 	return indices
 }
